@@ -46,6 +46,11 @@ def patch_bytestring_provider():
 def main(argv):
     pid, tier, runs, seed, out = argv[1], argv[2], int(argv[3]), \
         int(argv[4]), argv[5]
+    # safety net only (a campaign is bounded by its execution count; when the
+    # wall-clock bound hits first the campaign is cut short, which is
+    # reported in the evidence and is never a violation)
+    max_time = int(os.environ.get('VT_FUZZ_MAX_S',
+                                  '150' if tier == 'quick' else '2400'))
     os.environ['PYTHONHASHSEED'] = '0'
     import atheris
     from . import setup_paths
@@ -124,7 +129,8 @@ def main(argv):
         with open(os.path.join(corpus, f'seed{i:02d}'), 'wb') as f:
             f.write(rnd.randbytes(ln))
     atheris.Setup([sys.argv[0], corpus, f'-runs={runs}', f'-seed={seed % 2**31 or 1}',
-                   '-max_len=8192', '-len_control=0', '-rss_limit_mb=0', '-timeout=3600',
+                   '-max_len=8192', '-len_control=0',
+                   f'-max_total_time={max_time}', '-rss_limit_mb=0', '-timeout=3600',
                    '-print_final_stats=1',
                    f'-artifact_prefix={out}.art-'], one)
     atheris.Fuzz()
